@@ -9,7 +9,8 @@ LEMMAS = {}        # name -> Lemma
 
 class LoopSpec:
     def __init__(self, kind, inv=(), post=None, decreases=None, index=None, var=None, unroll=None,
-                 modifies_extra=()):
+                 modifies_extra=(), cut=()):
+        self.cut = list(cut)        # assertions proved at the end of every iteration, then assumed (proof hints)
         self.kind = kind            # 'for' | 'while'
         self.inv = list(inv)
         self.post = list(post) if post is not None else None
